@@ -133,6 +133,43 @@ func runC01(c *runCfg) error {
 			}
 		}
 	}
+	// a server that is closing (Close has been called) still authenticates: a connection accepted around the
+	// shutdown gets no session without credentials the validator accepted (what it may do afterwards is the business
+	// of the shutdown protocol, C16: these cases are judged by the authentication oracle alone)
+	for _, auth := range []string{"pw", "reject", "fail"} {
+		for pi, pw := range [][]byte{mPassword([]byte("wrong")), mPassword([]byte("secret")), mQuery([]byte("select 1")), nil} {
+			for _, ssl := range []bool{false, true} {
+				cfg := simpleCfg(256)
+				cfg.auth = auth
+				cfg.authPW = []byte("secret")
+				su := startupMsg("user", "late", "database", "db")
+				var cs *caseT
+				if pw == nil {
+					cs = lockCase(id, "closing", cfg, su, [][]byte{mSync()})
+				} else {
+					cs = lockCase(id, "closing", cfg, su, [][]byte{pw, mQuery([]byte("select 1")), mTerminate()})
+				}
+				cs.pre = 2
+				if ssl {
+					cs.raw = cat(sslRequest(), cs.raw)
+					cs.chunks = append([]int{8}, cs.chunks...)
+					cs.pre = 3
+				}
+				_ = pi
+				reg := &registry{recs: map[string]*recorder{}}
+				conn, rec := newSession(cs, reg)
+				srv, err := buildServer(&cs.cfg, reg)
+				if err != nil {
+					panic(err)
+				}
+				srv.Close()
+				o := driveSession(cs, conn, rec, srv)
+				c.out.line("(sess " + cs.id + " " + cs.class + " " + cs.sxHead() + " (serverclosed 1) " + o.sx(isSSLRequest(cs.raw)) + ")")
+				c.stat("class_closing")
+				id++
+			}
+		}
+	}
 	// long user and database names (63, 64, 65, 200 bytes; pairs that share their first 63 bytes): the validator is
 	// asked about exactly the names of the startup packet
 	for _, n := range []int{62, 63, 64, 65, 128, 200} {
@@ -437,10 +474,64 @@ func runC10TLS(c *runCfg, only map[string]bool) {
 	}
 }
 
+// runC10streamed: see the comment inside
+func runC10streamed(c *runCfg) {
+	// bodies that are really sent in full, from just above the limit to beyond a gigabyte (served without being
+	// materialised): skipped in full, answered with one ErrorResponse + ReadyForQuery, and the session goes on — the
+	// transcript of message types behind the first ReadyForQuery must be E Z | Z | T D C Z
+	{
+		sizes := []int64{5000, 1 << 20, 1<<24 + 1, 1<<30 - 1, 1 << 30, 1<<30 + 1}
+		if c.tier == "thorough" {
+			sizes = append(sizes, 1<<31-5, 1<<31, 1<<31+9, 1<<32-5)
+		}
+		for si, n := range sizes {
+			for _, L := range []int{1024, 0} {
+				if L == 0 && n <= 1<<24 {
+					continue
+				}
+				cfg := simpleCfg(L)
+				reg := &registry{recs: map[string]*recorder{}}
+				cs := flatCase(0, "streamed", cfg, nil, nil)
+				conn, rec := newSession(cs, reg)
+				srv, err := buildServer(&cs.cfg, reg)
+				if err != nil {
+					panic(err)
+				}
+				o := &obsT{}
+				serveAsync(srv, conn, o)
+				conn.push(stdStartup)
+				conn.waitIdle(idleTimeout)
+				mark := conn.outLen()
+				conn.push(msgLen('Q', uint32(n+4), nil))
+				conn.pushZeros(n)
+				conn.push(cat(mSync(), mQuery([]byte("select 1")), mTerminate()))
+				conn.setEOF()
+				hang := !conn.waitFinished(6 * idleTimeout)
+				collect(conn, rec, o)
+				var got []byte
+				for b := o.out[min(mark, len(o.out)):]; len(b) >= 5; {
+					l := int(uint32(b[1])<<24 | uint32(b[2])<<16 | uint32(b[3])<<8 | uint32(b[4]))
+					if l < 4 || len(b) < 1+l {
+						got = append(got, '?')
+						break
+					}
+					got = append(got, b[0])
+					b = b[1+l:]
+				}
+				c.out.line(sx("c10huge", 960000+2*si+min(L, 1), "streamed", sx("limit", L), sx("size", n), sx("want", []byte("EZZTDCZ")), sx("got", got), sx("hang", hang), sx("panic", o.panicv != "")))
+				c.stat("class_streamed")
+			}
+		}
+	}
+}
+
 func runC10(c *runCfg) error {
 	if c.replay != "" {
 		if b, err := os.ReadFile(c.replay); err == nil && bytes.Contains(b, []byte("(tlsobs ")) {
 			runC10TLS(c, tlsOnly(c))
+			return nil
+		} else if err == nil && bytes.Contains(b, []byte("(c10huge ")) {
+			runC10streamed(c)
 			return nil
 		}
 		return replaySessions(c)
@@ -608,53 +699,7 @@ func runC10(c *runCfg) error {
 			id++
 		}
 	}
-	// bodies that are really sent in full, from just above the limit to beyond a gigabyte (served without being
-	// materialised): skipped in full, answered with one ErrorResponse + ReadyForQuery, and the session goes on — the
-	// transcript of message types behind the first ReadyForQuery must be E Z | Z | T D C Z
-	{
-		sizes := []int64{5000, 1 << 20, 1<<24 + 1, 1<<30 - 1, 1 << 30, 1<<30 + 1}
-		if c.tier == "thorough" {
-			sizes = append(sizes, 1<<31-5, 1<<31, 1<<31+9, 1<<32-5)
-		}
-		for si, n := range sizes {
-			for _, L := range []int{1024, 0} {
-				if L == 0 && n <= 1<<24 {
-					continue
-				}
-				cfg := simpleCfg(L)
-				reg := &registry{recs: map[string]*recorder{}}
-				cs := flatCase(0, "streamed", cfg, nil, nil)
-				conn, rec := newSession(cs, reg)
-				srv, err := buildServer(&cs.cfg, reg)
-				if err != nil {
-					panic(err)
-				}
-				o := &obsT{}
-				serveAsync(srv, conn, o)
-				conn.push(stdStartup)
-				conn.waitIdle(idleTimeout)
-				mark := conn.outLen()
-				conn.push(msgLen('Q', uint32(n+4), nil))
-				conn.pushZeros(n)
-				conn.push(cat(mSync(), mQuery([]byte("select 1")), mTerminate()))
-				conn.setEOF()
-				hang := !conn.waitFinished(6 * idleTimeout)
-				collect(conn, rec, o)
-				var got []byte
-				for b := o.out[min(mark, len(o.out)):]; len(b) >= 5; {
-					l := int(uint32(b[1])<<24 | uint32(b[2])<<16 | uint32(b[3])<<8 | uint32(b[4]))
-					if l < 4 || len(b) < 1+l {
-						got = append(got, '?')
-						break
-					}
-					got = append(got, b[0])
-					b = b[1+l:]
-				}
-				c.out.line(sx("c10huge", 960000+2*si+min(L, 1), "streamed", sx("limit", L), sx("size", n), sx("want", []byte("EZZTDCZ")), sx("got", got), sx("hang", hang), sx("panic", o.panicv != "")))
-				c.stat("class_streamed")
-			}
-		}
-	}
+	runC10streamed(c)
 	if c.tier == "thorough" {
 		// default limit (non-positive setting): 16 MiB
 		for _, L := range []int{0, -1} {
